@@ -119,10 +119,38 @@ def _pairs(repo: Repo) -> List[Tuple[Func, Func]]:
 def r11_3(repo: Repo) -> RuleResult:
     rr = RuleResult("R11.3", "the build kernel and the EM kernel of each vectorizer construct windows, kernels and row ids the same way", floor=4)
     em = repo.func(COO_FILE, "em_update_matrix")
+    app = repo.func(COO_FILE, "coo_append")
     for b, e in _pairs(repo):
         problems = []
-        wb, we = _collected(b, "windows"), _collected(e, "windows")
-        kb, ke = _collected(b, "kernels"), _collected(e, "kernels")
+        # EM side: the lists are whatever is handed to em_update_matrix as `windows` / `kernels`
+        calls = [c for c in repo.calls_in(e) if em in repo.resolve_call(e, c)]
+        bound = repo.bind_args(em, calls[0])
+        if not (isinstance(bound.get("windows"), ast.Name) and isinstance(bound.get("kernels"), ast.Name)):
+            raise AnalysisError("R11.3: em_update_matrix is not given its windows / kernels as local lists in %s" % e.key)
+        e_win, e_ker = bound["windows"].id, bound["kernels"].id
+        # build side: the loop `for i, w in enumerate(<windows>)` that appends, and the list indexed by i inside it
+        b_win = b_ker = None
+        from .common import parents_map, ancestors
+
+        pm = parents_map(b.node)
+        for c in repo.calls_in(b):
+            if app in repo.resolve_call(b, c):
+                for a in ancestors(c, pm):
+                    if isinstance(a, ast.For) and isinstance(a.iter, ast.Call) and norm(a.iter.func) == "enumerate" and isinstance(a.iter.args[0], ast.Name) \
+                            and isinstance(a.target, ast.Tuple):
+                        if not _collected(b, a.iter.args[0].id):
+                            continue  # an inner per-element loop, not the loop over the windows list
+                        idx = norm(a.target.elts[0])
+                        b_win = a.iter.args[0].id
+                        b_ker = None
+                        for n in ast.walk(a):
+                            if isinstance(n, ast.Subscript) and isinstance(n.value, ast.Name) and norm(n.slice) == idx and n.value.id != b_win \
+                                    and isinstance(n.ctx, ast.Load) and _collected(b, n.value.id):
+                                b_ker = b_ker or n.value.id
+        if b_win is None or b_ker is None:
+            raise AnalysisError("R11.3: windows / kernels lists of the build kernel %s not recognised" % b.key)
+        wb, we = _collected(b, b_win), _collected(e, e_win)
+        kb, ke = _collected(b, b_ker), _collected(e, e_ker)
         if wb != we:
             problems.append("windows differ: build %s vs EM %s" % (sorted(wb), sorted(we)))
         if kb != ke:
@@ -133,14 +161,10 @@ def r11_3(repo: Repo) -> RuleResult:
             problems.append("a kernel is not multiplied by its mix weight")
         sd = single_defs(b)
         row_b = norm(sd["row"]) if "row" in sd else None
-        calls = [c for c in repo.calls_in(e) if em in repo.resolve_call(e, c)]
-        bound = repo.bind_args(em, calls[0])
         row_e = norm(bound["target_gram_ind"])
         if row_b != row_e:
             problems.append("row id differs: build `%s` vs EM `%s`" % (row_b, row_e))
         # the EM kernel must hand over the very windows/kernels it built
-        if norm(bound.get("windows")) != "windows" or norm(bound.get("kernels")) != "kernels":
-            problems.append("em_update_matrix is not given the windows/kernels lists")
         construct = "%s vs %s" % (b.name, e.name)
         if problems:
             rr.bad(e, construct, "; ".join(problems), e.node.lineno)
